@@ -1180,12 +1180,15 @@ vbi_decode_vps(vbi_decoder *vbi, uint8_t *buf)
 
 	if (cni != (unsigned int) n->cni_vps) {
 		n->cni_vps = cni;
-		n->cycle = 1;
+		/* Pending, unless a transmission error is over. */
+		vbi->cni_cycle[VBI_CNI_TYPE_VPS] =
+			(cni != (unsigned int)
+			 vbi->cni_announced[VBI_CNI_TYPE_VPS]);
 
 		CLEAR (vbi->vps_pid);
 		/* May fail, leaving vbi->vps_pid unmodified. */
 		vbi_decode_vps_pdc (&vbi->vps_pid, buf);
-	} else if (n->cycle == 1) {
+	} else if (vbi->cni_cycle[VBI_CNI_TYPE_VPS] == 1) {
 		unsigned int id;
 
 		id = station_lookup(VBI_CNI_TYPE_VPS, cni, &country, &name);
@@ -1213,7 +1216,8 @@ vbi_decode_vps(vbi_decoder *vbi, uint8_t *buf)
 		vbi->network.type = VBI_EVENT_NETWORK_ID;
 		vbi_send_event(vbi, &vbi->network);
 
-		n->cycle = 2;
+		vbi->cni_cycle[VBI_CNI_TYPE_VPS] = 2;
+		vbi->cni_announced[VBI_CNI_TYPE_VPS] = cni;
 
 		if (vbi->event_mask & VBI_EVENT_PROG_ID) {
 			vbi_program_id pid;
@@ -1270,8 +1274,10 @@ parse_bsd(vbi_decoder *vbi, uint8_t *raw, int packet, int designation)
 
 			if (cni != n->cni_8301) {
 				n->cni_8301 = cni;
-				n->cycle = 1;
-			} else if (n->cycle == 1) {
+				vbi->cni_cycle[VBI_CNI_TYPE_8301] =
+					(cni != vbi->cni_announced
+					 [VBI_CNI_TYPE_8301]);
+			} else if (vbi->cni_cycle[VBI_CNI_TYPE_8301] == 1) {
 				unsigned int id;
 
 				id = station_lookup(VBI_CNI_TYPE_8301, cni, &country, &name);
@@ -1300,7 +1306,8 @@ parse_bsd(vbi_decoder *vbi, uint8_t *raw, int packet, int designation)
 				vbi->network.type = VBI_EVENT_NETWORK_ID;
 				vbi_send_event(vbi, &vbi->network);
 
-				n->cycle = 2;
+				vbi->cni_cycle[VBI_CNI_TYPE_8301] = 2;
+				vbi->cni_announced[VBI_CNI_TYPE_8301] = cni;
 			}
 #if 0
 			if (1) { /* country and network identifier */
@@ -1362,8 +1369,10 @@ parse_bsd(vbi_decoder *vbi, uint8_t *raw, int packet, int designation)
 
 			if (cni != n->cni_8302) {
 				n->cni_8302 = cni;
-				n->cycle = 1;
-			} else if (n->cycle == 1) {
+				vbi->cni_cycle[VBI_CNI_TYPE_8302] =
+					(cni != vbi->cni_announced
+					 [VBI_CNI_TYPE_8302]);
+			} else if (vbi->cni_cycle[VBI_CNI_TYPE_8302] == 1) {
 				unsigned int id;
 
 				id = station_lookup(VBI_CNI_TYPE_8302, cni, &country, &name);
@@ -1392,7 +1401,8 @@ parse_bsd(vbi_decoder *vbi, uint8_t *raw, int packet, int designation)
 				vbi->network.type = VBI_EVENT_NETWORK_ID;
 				vbi_send_event(vbi, &vbi->network);
 
-				n->cycle = 2;
+				vbi->cni_cycle[VBI_CNI_TYPE_8302] = 2;
+				vbi->cni_announced[VBI_CNI_TYPE_8302] = cni;
 			}
 
 #if 0
